@@ -1156,6 +1156,15 @@ func (a *analyser) call(f *ssa.Function, ins ssa.Instruction, c *ssa.CallCommon,
 			}
 		}
 		a.add(f, Effect{Kind: "Sync", Loc: obj, Op: t + "." + m, Fn: name})
+		// sync.Once.Do(f), sync.OnceFunc(f): the function handed over is called
+		for _, arg := range c.Args {
+			if mc, ok := arg.(*ssa.MakeClosure); ok {
+				a.inline(f, mc.Fn.(*ssa.Function), nil, mc.Bindings, held, false)
+			}
+			if fn, ok := arg.(*ssa.Function); ok {
+				a.inline(f, fn, nil, nil, held, false)
+			}
+		}
 		return
 	case p == "math/rand" || p == "math/rand/v2" || p == "crypto/rand":
 		a.add(f, Effect{Kind: "Rand", Loc: strings.TrimPrefix(cal.String(), module+"/"), Fn: name})
@@ -1573,7 +1582,7 @@ func coqSummaries(name string, ss []Summary) string {
 func (r *Result) Coq() []byte {
 	var b strings.Builder
 	b.WriteString("(* GENERATED by harness/effsum from the source tree under analysis - do not edit. *)\n")
-	b.WriteString("From Coq Require Import List String.\nFrom Sdfx Require Import Sys.Lockset.\nImport ListNotations.\nOpen Scope string_scope.\n\n")
+	b.WriteString("From Coq Require Import List String.\nFrom Sdfx Require Import Sys.Lockset.\nImport ListNotations.\nLocal Open Scope string_scope.\n\n")
 	b.WriteString(coqSummaries("evaluate_summaries", r.Evaluate))
 	b.WriteString(coqSummaries("render_summaries", r.Render))
 	fmt.Fprintf(&b, "Definition batchSize : nat := %d.\n", r.BatchSize)
